@@ -9,6 +9,7 @@ projections recorded from a real framework.Statement on a real framework.Session
 """
 import os
 
+import st_cluster
 import st_nodeacct
 
 LEVEL = "model_checking"
@@ -27,10 +28,17 @@ def run(ctx):
     stmt = _st_stmt()
     if stmt is not None:
         stmt.run_stage(ctx, PREFIXES)
+    # snapshot construction: the freshly opened session of every real cycle (real SchedulerCache snapshot of the
+    # API objects) against the truth recomputed by Cluster.tla from those objects (C14_Snapshot*)
+    n = 600 if ctx.quick else 8000
+    st_cluster.run_stage(ctx, PREFIXES, [("mixed", n // 3), ("fraction", n // 6), ("sharers", n // 6), ("full", n // 6), ("elastic", n // 6)])
 
 
 def replay(ctx, obj):
     rep = obj.get("replay", {})
+    if rep.get("module") == st_cluster.MODULE:
+        st_cluster.replay_stage(ctx, obj, PREFIXES)
+        return
     if rep.get("module") == st_nodeacct.TRACE:
         st_nodeacct.replay_stage(ctx, obj, PREFIXES)
         return
